@@ -194,6 +194,15 @@ def all_mutants(t):
             yield kind, list(p), m
 
 
+def xml_ok(t):
+    """the XML route can express the tree (known namespaces; text where the parser would not merge it away)"""
+    if t[0] != "tag":
+        return True
+    if t[1] not in ("",) + tuple(PREFIX) or any(a not in ("",) + tuple(PREFIX) for a, _, _ in t[3]):
+        return False
+    return all(xml_ok(c) for c in t[4])
+
+
 def tuple_tree(t):
     if t[0] == "tag":
         return ("tag", t[1], t[2], [tuple(a) for a in t[3]], [tuple_tree(c) for c in t[4]])
@@ -231,10 +240,48 @@ def _filtered(node, preds):
     return impl._extract(node)
 
 
+PREFIX = {"u": "p", "v": "q", "w": "s"}
+
+
+def xml_prefixed(t, declared=()):
+    """XML text in which every namespace is bound to a *prefix* (never the default namespace), declared where first
+    used; attributes without namespace are written plain, so an element in a prefixed namespace can carry `x` next
+    to `p:x`"""
+    k = t[0]
+    if k == "text":
+        return impl.esc_text(t[1])
+    if k == "comment":
+        return "<!--%s-->" % t[1]
+    if k == "pi":
+        return "<?%s %s?>" % (t[1], t[2]) if t[2] else "<?%s?>" % t[1]
+    ns, name, attrs, kids = t[1], t[2], t[3], t[4]
+    declared = list(declared)
+    decl = ""
+    for n in [ns] + [a for a, _, _ in attrs]:
+        if n and n not in declared:
+            declared.append(n)
+            decl += ' xmlns:%s="%s"' % (PREFIX[n], n)
+    q = (PREFIX[ns] + ":" + name) if ns else name
+    out_attrs = "".join(' %s="%s"' % ((PREFIX[a] + ":" + b) if a else b, impl.esc_attr(v)) for a, b, v in attrs)
+    inner = "".join(xml_prefixed(c, declared) for c in kids)
+    return "<%s%s%s>%s</%s>" % (q, decl, out_attrs, inner, q) if kids else "<%s%s%s/>" % (q, decl, out_attrs)
+
+
+def from_xml(t):
+    return Document(xml_prefixed(t)).root if t[0] == "tag" else build(t)
+
+
 def make_pair(case):
     """returns the two real trees for a case"""
-    a = build(case["a"])
     route = case.get("route", "api")
+    if route.startswith("xml"):
+        a = from_xml(case["a"])
+        if route == "xml-clone":
+            return a, a.clone(deep=True)
+        if route == "xml-reparse":
+            return a, (Document(str(a)).root if isinstance(a, TagNode) else from_xml(case["b"]))
+        return a, from_xml(case["b"])
+    a = build(case["a"])
     if route == "clone":
         b = a.clone(deep=True)
     elif route == "reparse":
@@ -360,6 +407,44 @@ BASES = [
       ("comment", "t"), ("tag", "", "b", [], [("tag", "", "c", [("v", "j", "1")], [("text", "t t")])]), ("pi", "q", "")]),
     ("tag", "u", "b", [], [("text", "x"), ("text", "t")]),
 ]
+# parsed from XML with prefixed namespaces: un-namespaced attributes on elements in a (prefixed) namespace, alone and
+# next to an attribute of the same local name in the element's own namespace, at depths 0-2
+XML_BASES = [
+    ("tag", "", "r", [], [("tag", "u", "e", [("", "x", "1")], [("text", "t")]),
+                          ("tag", "u", "a", [("", "x", "2"), ("u", "x", "2")], [("tag", "v", "c", [("", "j", "1"), ("u", "j", "1")], [])])]),
+    ("tag", "u", "b", [("", "k", "1"), ("u", "k", "2"), ("v", "k", "1")], [("comment", "c"), ("tag", "u", "a", [("", "k", "")], [])]),
+]
+
+
+def gen_xml_tree(rng, depth):
+    """random tree for the XML route: namespaced elements carry un-namespaced attributes and same-named twins"""
+    ns = rng.choice(["", "u", "u", "v"])
+    attrs = []
+    for k in rng.sample(["x", "k", "j"], rng.choice([0, 1, 1, 2])):
+        r = rng.random()
+        if r < 0.45 or not ns:
+            attrs.append(("", k, rng.choice(["1", "2"])))
+        elif r < 0.6:
+            attrs.append((ns, k, rng.choice(["1", "2"])))
+        else:
+            v = rng.choice(["1", "2"])
+            attrs += [("", k, v), (ns, k, rng.choice([v, v, "3"]))]
+    kids = []
+    for _ in range(rng.choice([0, 1, 2, 2, 3])):
+        q = rng.random()
+        if q < 0.3:
+            kids.append(("text", rng.choice(TEXTS)))
+        elif q < 0.4:
+            kids.append(("comment", "c"))
+        elif depth > 0:
+            kids.append(gen_xml_tree(rng, depth - 1))
+    # the parser merges adjacent text: keep one
+    merged = []
+    for c in kids:
+        if c[0] == "text" and merged and merged[-1][0] == "text":
+            continue
+        merged.append(c)
+    return ("tag", ns, rng.choice(NAMES), sorted(attrs), merged)
 
 
 def run(ctx, args):
@@ -370,7 +455,8 @@ def run(ctx, args):
             rep = json.load(f)
         case = rep.get("case")
         if case:
-            check_cases(ctx, [{"a": tuple_tree(case["a"]), "b": tuple_tree(case["b"]), "route": "api",
+            check_cases(ctx, [{"a": tuple_tree(case["a"]), "b": tuple_tree(case["b"]),
+                               "route": case.get("route") if str(case.get("route", "")).startswith("xml") else "api",
                                "kind": case.get("kind"), "path": case.get("path")}])
         return ctx.finish("replay of " + args.replay)
     quick = ctx.tier == "quick"
@@ -387,6 +473,19 @@ def run(ctx, args):
         for kind, p, m in ms:
             if m[0] == "tag" or not p:
                 cases.append({"a": t, "b": m, "kind": kind, "path": p})
+    # (1b) the same through the XML route with prefixed namespaces
+    xml_trees = list(XML_BASES) + [gen_xml_tree(rng, 2) for _ in range(25 if quick else 600)]
+    for i, t in enumerate(xml_trees):
+        cases.append({"a": t, "b": t, "kind": "no mutation", "route": "xml"})
+        cases.append({"a": t, "b": t, "kind": "clone", "route": "xml-clone"})
+        cases.append({"a": t, "b": t, "kind": "re-parsed serialization", "route": "xml-reparse"})
+        ms = [m for m in all_mutants(t) if m[0].startswith(("attribute", "element re-namespaced", "element renamed"))
+              or i >= len(XML_BASES)]
+        if i >= len(XML_BASES):
+            ms = rng.sample(ms, min(4 if quick else 8, len(ms)))
+        for kind, p, m in ms:
+            if m[0] == "tag" and xml_ok(m):
+                cases.append({"a": t, "b": m, "kind": kind, "path": p, "route": "xml"})
     # (2) random trees: unmutated copy, clone, re-parse, and a sample of their single-point mutants (each kind)
     n_trees = 150 if quick else 2500
     per_tree = 4 if quick else 8
@@ -409,7 +508,9 @@ def run(ctx, args):
              "node kinds at depths 0-3 (quick: every third) + random trees of depth <=3 (attributes in up to 3 namespaces, "
              "adjacent text nodes, empty values) with their copy, deep clone, re-parsed serialization and sampled mutants of "
              "each kind (rename, re-namespace, attribute added/removed/changed/re-namespaced, text/comment/PI/element "
-             "added/removed/changed, unwrap, swap, node kind change) at any depth; each pair under %d ambient filter settings "
+             "added/removed/changed, unwrap, swap, node kind change) at any depth; the same through an XML route in which "
+             "every namespace is bound to a prefix (un-namespaced attributes on namespaced elements, alone and next to the "
+             "same local name in the element's namespace); each pair under %d ambient filter settings "
              "and in both argument orders. One evaluation = one (pair, filter setting). Non-trivial = the two trees differ; "
              "distinct by (tree a, tree b, filter setting)." % len(GRID))
 
